@@ -1316,8 +1316,10 @@ func (d *dealer) syncDelCalleeReg(callee *wamp.Session, regID wamp.ID) (bool, er
 	}
 
 	// Remove the callee from the registration.
+	var found bool
 	for i := range reg.callees {
 		if reg.callees[i] == callee {
+			found = true
 			if d.debug {
 				d.log.Printf("Unregistered procedure %v (regID=%v) (callee=%v)",
 					reg.procedure, regID, callee.ID)
@@ -1330,6 +1332,10 @@ func (d *dealer) syncDelCalleeReg(callee *wamp.Session, regID wamp.ID) (bool, er
 			}
 			break
 		}
+	}
+	if !found {
+		// Only a callee of the registration can be removed from it.
+		return false, fmt.Errorf("session %v is not a callee of registration %v", callee.ID, regID)
 	}
 
 	// If no more callees for this registration, then delete the registration
